@@ -2,8 +2,13 @@
 
 package simrt
 
+import "unsafe"
+
 // RaceBuild reports whether the binary was built with the race detector.
 const RaceBuild = false
 
 func raceDisable() {}
 func raceEnable()  {}
+
+func racePublish(addr unsafe.Pointer) {}
+func raceCollect(addr unsafe.Pointer) {}
